@@ -244,16 +244,21 @@ def run(prop: str, tier: str, jobs: int, dump_known: bool = False) -> int:
         print(f"HARNESS-ERROR property={prop}: {len(errors)} work item(s) raised in the harness")
         print(errors[0])
         return 3
-    if nondet:
-        print(f"HARNESS-ERROR property={prop}: NONDETERMINISTIC work items {sorted(set(nondet))[:5]}")
-        return 3
-
     # group failures by signature
     by_sig: dict[str, list[dict]] = {}
     for f in agg.failures:
         by_sig.setdefault(canon(f["signature"]), []).append(f)
     known_open, _fixed = load_known(prop)
     unmatched = {k: v for k, v in by_sig.items() if k not in known_open}
+    if nondet and not unmatched:
+        # the same work item gave two different results and nothing else is wrong: the harness
+        # does not own some source of nondeterminism - nothing this run says can be trusted
+        print(f"HARNESS-ERROR property={prop}: NONDETERMINISTIC work items {sorted(set(nondet))[:5]}")
+        return 3
+    if nondet:
+        # with violations on the table a repeated item that differs is one more symptom (state
+        # that survives between lint runs makes results depend on what a worker did before)
+        print(f"NOTE property={prop}: work items {sorted(set(nondet))[:5]} gave different results when repeated in this run (results depend on process history); the violations below were observed on real runs")
     matched = {k: v for k, v in by_sig.items() if k in known_open}
 
     replay_dir = EVID / "replays"
